@@ -150,6 +150,12 @@ def run(ctx):
         nports, ns = rng.randint(1, 3), rng.randint(0, 4)
         mat = [[rng.randrange(1 << width) for _ in range(ns)] for _ in range(nports)]
         masks = [rng.choice([2 ** width - 1, rng.randrange(1 << width)]) for _ in range(nports)]
+        # a third of the calls carry, for one port, a mask the port cannot hold: just beyond the width, far beyond, negative
+        wide_at = rng.randrange(nports) if rng.random() < 0.33 else None
+        if wide_at is not None:
+            masks[wide_at] = rng.choice([1 << width, (1 << (width + 1)) - 1, (1 << width) | rng.randrange(1 << width),
+                                         (1 << (2 * width - 1)) | 1, -1, -rng.randrange(1, 1 << width)]
+                                        + ([0x1FF, 0x100] if width == 8 else []))
         big = rng.random() < 0.5
         src = np.array(mat, base).reshape(nports, ns)
         if rng.random() < 0.4:
@@ -157,10 +163,20 @@ def run(ctx):
             wide[:, ::2][:, :ns] = src
             src = wide[:, ::2][:, :ns]
         o = outcome(lambda: W.from_ports(src, masks, bitorder="big" if big else "little"))
-        want = [expected_rows(mat[p], width, masks[p], big) for p in range(nports)]
         got = [[[int(x) for x in r] for r in w.data] for w in o[1]] if o[0] == "ok" else o
-        if got != want:
-            ctx.violation(what="from_ports", width=width, masks=masks, big=big, observed=str(got)[:300], required=str(want)[:300])
+        if wide_at is None:
+            want = [expected_rows(mat[p], width, masks[p], big) for p in range(nports)]
+            if got != want:
+                ctx.violation(what="from_ports", width=width, masks=masks, big=big, observed=str(got)[:300], required=str(want)[:300])
+        elif masks[wide_at] < 0:
+            if o[:2] != ("err", "ValueError"):
+                ctx.violation(what="from_ports negative mask", width=width, masks=masks, big=big, observed=show(o)[:200], required="ValueError")
+        else:
+            ign = [expected_rows(mat[p], width, masks[p] & (2 ** width - 1), big) for p in range(nports)]
+            if not (o[0] == "err" or got == ign):
+                ctx.violation(what="from_ports mask beyond port width", width=width, masks=masks, big=big, values=mat, observed=str(got)[:300],
+                              required="rejected or extra bits ignored, never a fabricated signal")
+        ctx.count("from_ports", "in-range masks" if wide_at is None else "negative mask" if masks[wide_at] < 0 else "mask beyond width")
         ctx.case(("ports", width, tuple(masks), big, str(mat)))
     # ---- translation validation of the regenerated kernels --------------------------------------------------------
     tvc = [("Port.bit_mask", [n], (lambda n=n: bit_mask(n)), True) for n in list(range(-3, 40)) + [64, 100]]
